@@ -325,6 +325,11 @@ class Interp:
             if ov is not None:
                 return ov.fn(self, *args, **kwargs) if isinstance(ov, Native) else ov
             return self.np.call_external(f.path, args, kwargs, node)
+        if type(f).__name__ == "CallableType":
+            x = args[0] if args else None
+            if isinstance(x, E):
+                x = "nan" if any(str(a_) == "nan" for a_ in alg.atoms_of(x)) else repr(x)
+            return ("typed", f.name, x if isinstance(x, str) else repr(x))
         if isinstance(f, tuple) and f and f[0] == "method":
             return self.np.call_method(f[1], f[2], args, kwargs, node)
         if isinstance(f, type) and f in (int, float, str, bool, complex, list, tuple, dict, set):
@@ -1562,6 +1567,9 @@ class Interp:
             if isinstance(v, FuncVal) and any((_dotted(d) or "").endswith("classmethod") for d in v.decorators):
                 return BoundMethod(base, v)
             return v
+        if type(base).__name__ == "CallableType":
+            if attr in ("__qualname__", "__name__"):
+                return base.name
         if isinstance(base, EnumMember):
             if attr == "value":
                 return base.value
